@@ -16,6 +16,11 @@ def make(L, T, spec, tag):
         req = {'op': 'parse', 's': SymStr(s)}
         r = from_str(I, T, s)
         return (r.fields[0] if r.variant == 'Ok' else None), req
+    via = 'ctor'
+    if spec[0] == 'inplace':
+        # a PURL with long components, turned into a builder, fields shrunk in place (they keep their allocation), built
+        spec = ('build', 't', 'n', spec[1])
+        via = 'parsed_long'
     _, ty, name, steps = spec
     def mat(x):
         if isinstance(x, tuple):
@@ -25,8 +30,8 @@ def make(L, T, spec, tag):
         return list(x.encode())
     tyb, nm = mat(ty), mat(name)
     st = [(s[0],) + tuple(mat(a) for a in s[1:]) for s in steps]
-    req = {'op': 'build', 'type': SymStr(tyb), 'name': SymStr(nm), 'steps': [[m] + [SymStr(a) for a in args] for m, *args in st]}
-    b = b_new(I, T, mk_type(I, T, tyb), nm)
+    req = {'op': 'build', 'type': SymStr(tyb), 'name': SymStr(nm), 'via': via, 'steps': [[m] + [SymStr(a) for a in args] for m, *args in st]}
+    b = b_parsed(I, T, tyb, True) if via == 'parsed_long' else b_new(I, T, mk_type(I, T, tyb), nm)
     for m, *args in st:
         b = b_call(I, T, b, m, *args)
         if m == 'with_qualifier':
@@ -88,6 +93,29 @@ def h_pair(L, T, A, B):
         L.fail('panic: %s' % e.msg)
         return 'panic'
     L.expect_native(req, {'eq': eq, 'disp_eq': eq, 'cmp_ab': {'Less': -1, 'Equal': 0, 'Greater': 1}[ab], 'disp_a': SymStr(da), 'disp_b': SymStr(db)})
+    return 'equal' if eq else 'different'
+
+
+def h_pair_reparsed(L, T, A):
+    """a == parse(a.to_string()): equal, same hash, Equal -- whatever way `a` was produced"""
+    I = L.I
+    try:
+        a, ra = make(L, T, A, 'a')
+        if a is None:
+            return 'not-both-valid'
+        da = display(I, T, a)
+        rb = {'op': 'parse', 's': SymStr(da)}
+        L.expect_native({'op': 'pair', 'T': KINDS[T][1], 'a': ra, 'b': rb}, {})
+        r = from_str(I, T, da)
+        if r.variant != 'Ok':
+            return 'not-both-valid'
+        b = r.fields[0]
+        db = display(I, T, b)
+        eq, ab = relate(L, T, a, b, da, db)
+    except Panic as e:
+        L.fail('panic: %s' % e.msg)
+        return 'panic'
+    L.expect_native({'op': 'pair', 'T': KINDS[T][1], 'a': ra, 'b': rb}, {'eq': eq, 'disp_eq': eq, 'cmp_ab': {'Less': -1, 'Equal': 0, 'Greater': 1}[ab]})
     return 'equal' if eq else 'different'
 
 
@@ -174,6 +202,11 @@ def queries(tier):
                 bA = ('build', ty, 'n', [(meth, ('hole', 'h', na))])
                 bB = ('build', ty, 'n', [(meth, ('hole', 'h', nb))])
                 qs.append(Query('%s pair built %s ⟦%d⟧ | ⟦%d⟧' % (T, meth, na, nb), h_pair, {'T': T, 'A': bA, 'B': bB}, bound='two builder-made PURLs whose %s are free strings of %d and %d bytes' % (meth[5:], na, nb)))
+    # a value whose fields were shrunk in place against the same value parsed fresh from its own canonical string
+    for T in ('String', 'SmallString'):
+        for steps in ([('truncate_qualifier', 'download_url', '20')], [('truncate_version', '5'), ('truncate_subpath', '3')], [('truncate_namespace', '10')]):
+            qs.append(Query('%s pair edited in place %s | its canonical string parsed' % (T, steps), h_pair_reparsed, {'T': T, 'A': ('inplace', steps)},
+                            bound='long components shrunk in place through the builder (%s), compared with parse(to_string())' % (steps,)))
     if True:
         X = P('pkg:t/', H1, '@', ('hole', 'v', 1))
         qs.append(Query('String triple name⟦1⟧@ver⟦1⟧', h_triple, {'T': 'String', 'A': X, 'B': X, 'C': X}, bound='three PURLs with free one-byte name and version'))
@@ -225,7 +258,7 @@ def vacuity(results):
     return probs
 
 
-ASSUMPTIONS = ['SmartString::is_inline() is modelled as len <= 23; a change that makes ==, Hash or Ord depend on whether a short value still lives on the heap (after an in-place truncate) is not detected (seeded change S7-C19)']
+ASSUMPTIONS = ['SmartString::is_inline() is modelled by a high-water mark per buffer; short-but-boxed values arise only from the in-place truncate steps listed in the queries']
 LEVEL_TEXT = ('bounded symbolic model checking of the real MIR: two (three) PURLs are produced from independent holes on one path -- spellings of one tuple, '
               'values one character apart, a separator moved between adjacent fields, qualifier values with & and = -- and the derived ==, Hash (recorded stream), '
               'cmp and partial_cmp are interpreted; `== iff identical canonical strings`, hash agreement, antisymmetry, `Equal iff ==` and transitivity are decided by the solver')
